@@ -580,3 +580,400 @@ Proof.
 Qed.
 
 End RelClassesS.
+
+(* ====================================================================================================== *)
+(* the same three arms entered from the relative state at ANY position - for references that carry the    *)
+(* scheme of the base ("http:x" against an http base)                                                     *)
+(* ====================================================================================================== *)
+Section SpecRelG.
+Variable shp : bool -> list N -> option spec_host.
+Variable inp : list N.
+Variable sb : spec_url.
+Hypothesis Hop : has_opaque_path sb = false.
+Hypothesis Hsp : is_special_scheme (su_scheme sb) = true.
+Hypothesis Hnf : list_eqb (su_scheme sb) str_file = false.
+Variable pre : list N.                 (* the text in front of the relative state's position *)
+Variable ux : spec_url.                (* the URL the relative state starts with *)
+Hypothesis Hux : set_scheme ux (su_scheme sb) = set_scheme empty_url (su_scheme sb).
+
+Notation RunsB := (Runs shp inp (Some sb)).
+Notation u0 := (set_scheme empty_url (su_scheme sb)).
+
+Lemma runs_relative_slash_g c t res : inp = pre ++ c :: t -> is_sl c = true ->
+  RunsB (at_pos StRelativeSlash (pre ++ [c]) [] false false false u0) res ->
+  RunsB (at_pos StRelative pre [] false false false ux) res.
+Proof.
+  intros Hin Hc HR.
+  eapply (runs_step_next shp inp (Some sb) StRelative pre c t) with (st' := StRelativeSlash) (buf' := []);
+    [exact Hin | | exact HR].
+  rewrite (step_unfold shp inp (Some sb) _ pre (c :: t)) by exact Hin. cbn zeta. cbn [hd_error].
+  unfold st_relative. cbn [m_url at_pos]. rewrite Hux. unfold is_special. cbn [cis su_scheme set_scheme empty_url]. rewrite Hsp.
+  destruct (c =? 47) eqn:E47; [reflexivity|]. unfold is_sl in Hc. rewrite E47 in Hc. cbn [orb] in Hc. rewrite Hc. reflexivity.
+Qed.
+
+Theorem runs_rel_authority_g c1 c2 T : inp = pre ++ c1 :: c2 :: T -> is_sl c1 = true -> is_sl c2 = true ->
+  out_is shp inp (Some sb) (at_pos StRelative pre [] false false false ux) (sauth_s shp (su_scheme sb) (drop_sl T)).
+Proof.
+  intros Hin H1 H2.
+  assert (inp = ((pre ++ [c1; c2]) ++ take_sl T) ++ drop_sl T) as Hin3.
+  { rewrite <- !app_assoc. cbn [app]. rewrite take_drop_sl. exact Hin. }
+  assert (forall res, RunsB (at_pos StAuthority ((pre ++ [c1; c2]) ++ take_sl T) [] false false false u0) res ->
+                      RunsB (at_pos StRelative pre [] false false false ux) res) as K.
+  { intros res HR.
+    apply (runs_relative_slash_g c1 (c2 :: T) res Hin H1).
+    assert (inp = (pre ++ [c1]) ++ c2 :: T) as Hin1 by (rewrite <- app_assoc; exact Hin).
+    eapply (runs_step_next shp inp (Some sb) StRelativeSlash (pre ++ [c1]) c2 T) with (st' := StSpecialAuthorityIgnoreSlashes) (buf' := []);
+      [exact Hin1 | |].
+    - rewrite (step_unfold shp inp (Some sb) _ (pre ++ [c1]) (c2 :: T)) by exact Hin1. cbn zeta. cbn [hd_error].
+      unfold st_relative_slash, is_special. cbn [m_url at_pos su_scheme set_scheme empty_url cis]. rewrite Hsp.
+      change ((c2 =? 47) || (c2 =? 92)) with (is_sl c2). rewrite H2. reflexivity.
+    - apply (runs_ignore_slashes shp inp (Some sb) (take_sl T) ((pre ++ [c1]) ++ [c2]) (drop_sl T) false false false u0 res).
+      + rewrite take_drop_sl. rewrite <- !app_assoc. exact Hin.
+      + apply take_sl_all.
+      + apply drop_sl_head.
+      + rewrite <- (app_assoc pre [c1] [c2]). exact HR. }
+  pose proof (runs_authority_s shp inp (Some sb) _ (drop_sl T) (su_scheme sb) Hin3 Hsp Hnf) as RA.
+  destruct (sauth_s shp (su_scheme sb) (drop_sl T)) as [su|]; cbn [out_is] in *.
+  - apply K. exact RA.
+  - destruct RA as [uf RA]. exists uf. apply K. exact RA.
+Qed.
+
+Theorem runs_rel_abs_g c t : inp = pre ++ c :: t -> is_sl c = true ->
+  match t with c2 :: _ => is_sl c2 = false | [] => True end ->
+  RunsB (at_pos StRelative pre [] false false false ux) (BDone (rel_path_result_s sb [] t)).
+Proof.
+  intros Hin Hc Ht.
+  apply (runs_relative_slash_g c t _ Hin Hc).
+  assert (inp = (pre ++ [c]) ++ t) as Hin2 by (rewrite <- app_assoc; exact Hin).
+  eapply (runs_step_back shp inp (Some sb) StRelativeSlash (pre ++ [c]) t) with (st' := StPath) (buf' := []) (u' := rel_keep sb []);
+    [exact Hin2 | |].
+  - rewrite (step_unfold shp inp (Some sb) _ (pre ++ [c]) t) by exact Hin2. cbn zeta.
+    unfold st_relative_slash, is_special. cbn [m_url at_pos su_scheme set_scheme empty_url]. rewrite Hsp.
+    cbn [andb].
+    assert (cis (hd_error t) 47 || cis (hd_error t) 92 = false) as E.
+    { destruct t as [|c2 r]; [reflexivity|]. cbn [hd_error cis]. exact Ht. }
+    rewrite E. apply orb_false_iff in E. destruct E as [E _]. rewrite E. reflexivity.
+  - exact (runs_path_s shp inp (Some sb) t (pre ++ [c]) [] false false false (rel_keep sb []) [] Hin2 eq_refl
+             (rel_keep_special sb Hsp []) Hnf).
+Qed.
+
+Theorem runs_rel_path_g c t : inp = pre ++ c :: t ->
+  is_sl c = false -> (c =? 63) = false -> (c =? 35) = false ->
+  RunsB (at_pos StRelative pre [] false false false ux)
+        (BDone (rel_path_result_s sb (removelast (path_segments sb)) (c :: t))).
+Proof.
+  intros Hin Esl E63 E35.
+  assert (su_path sb = SPList (path_segments sb)) as HP.
+  { unfold path_segments. unfold has_opaque_path in Hop. destruct (su_path sb); [discriminate Hop | reflexivity]. }
+  unfold is_sl in Esl. apply orb_false_iff in Esl. destruct Esl as [E47 E92].
+  eapply (runs_step_stay shp inp (Some sb) StRelative pre (c :: t)) with (st' := StPath) (buf' := [])
+    (u' := rel_keep sb (removelast (path_segments sb))); [exact Hin | discriminate | |].
+  - rewrite (step_unfold shp inp (Some sb) _ pre (c :: t)) by exact Hin. cbn zeta. cbn [hd_error].
+    unfold st_relative. cbn [m_url at_pos]. rewrite Hux. unfold is_special.
+    cbn [cis su_scheme set_scheme empty_url]. rewrite Hsp, E47, E92, E63, E35.
+    cbn [andb is_eof negb].
+    unfold shorten_path.
+    cbn [su_path su_scheme set_query set_path set_port set_host set_password set_username set_scheme empty_url].
+    rewrite HP, Hnf. cbn [andb]. reflexivity.
+  - exact (runs_path_s shp inp (Some sb) (c :: t) pre [] false false false (rel_keep sb (removelast (path_segments sb)))
+             (removelast (path_segments sb)) Hin eq_refl (rel_keep_special sb Hsp _) Hnf).
+Qed.
+
+End SpecRelG.
+
+(* ================= the scheme state with the scheme of a special base ================= *)
+Section SameSchemeSpec.
+Variable shp : bool -> list N -> option spec_host.
+Variable inp : list N.
+Variable sb : spec_url.
+Hypothesis Hsp : is_special_scheme (su_scheme sb) = true.
+Hypothesis Hnf : list_eqb (su_scheme sb) str_file = false.
+
+Notation RunsB := (Runs shp inp (Some sb)).
+Notation u0 := (set_scheme empty_url (su_scheme sb)).
+
+(* at the ':' : special relative or authority state *)
+Lemma runs_scheme_colon_same pre R res : inp = pre ++ 58 :: R ->
+  RunsB (at_pos StSpecialRelativeOrAuthority (pre ++ [58]) [] false false false u0) res ->
+  RunsB (at_pos StScheme pre (su_scheme sb) false false false empty_url) res.
+Proof.
+  intros Hin HR.
+  eapply (runs_step_next shp inp (Some sb) StScheme pre 58 R) with (st' := StSpecialRelativeOrAuthority) (buf' := []);
+    [exact Hin | | exact HR].
+  rewrite (step_unfold shp inp (Some sb) _ pre (58 :: R)) by exact Hin. cbn zeta. cbn [hd_error tl]. unfold st_scheme.
+  assert (is_scheme_cp 58 = false) as E1 by reflexivity.
+  cbn [cpred cis has_ov opt_is_some andb m_url m_buf at_pos]. rewrite E1.
+  replace (58 =? 58) with true by reflexivity.
+  unfold is_special. cbn [su_scheme set_scheme empty_url].
+  rewrite Hnf, Hsp, list_eqb_refl. cbn [andb]. reflexivity.
+Qed.
+
+(* not "//": the relative state, at the same code point *)
+Lemma runs_sroa_relative pre t res : inp = pre ++ t -> cis (hd_error t) 47 && starts_with_cp 47 (tl t) = false ->
+  RunsB (at_pos StRelative pre [] false false false u0) res ->
+  RunsB (at_pos StSpecialRelativeOrAuthority pre [] false false false u0) res.
+Proof.
+  intros Hin E HR.
+  eapply (runs_step_back shp inp (Some sb) StSpecialRelativeOrAuthority pre t) with (st' := StRelative) (buf' := []) (u' := u0);
+    [exact Hin | | exact HR].
+  rewrite (step_unfold shp inp (Some sb) _ pre t) by exact Hin. cbn zeta. unfold st_special_relative_or_authority.
+  rewrite E. reflexivity.
+Qed.
+
+(* "//": both skipped, special authority ignore slashes state *)
+Lemma runs_sroa_authority pre T res : inp = pre ++ 47 :: 47 :: T ->
+  RunsB (at_pos StAuthority ((pre ++ [47; 47]) ++ take_sl T) [] false false false u0) res ->
+  RunsB (at_pos StSpecialRelativeOrAuthority pre [] false false false u0) res.
+Proof.
+  intros Hin HR.
+  eapply R_next with (m' := mkM StSpecialAuthorityIgnoreSlashes (Z.of_nat (length pre) + 1)%Z [] false false false u0).
+  - rewrite (step_unfold shp inp (Some sb) _ pre (47 :: 47 :: T)) by exact Hin. cbn zeta. cbn [hd_error tl].
+    unfold st_special_relative_or_authority. cbn [cis starts_with_cp]. replace (47 =? 47) with true by reflexivity. reflexivity.
+  - cbn [m_ptr]. rewrite (len_split shp _ _ _ Hin). cbn [length]. lia.
+  - unfold inc_ptr, set_ptr. cbn [m_ptr m_state m_buf m_at m_br m_pw m_url].
+    replace (Z.of_nat (length pre) + 1 + 1)%Z with (Z.of_nat (length (pre ++ [47; 47]))) by (rewrite app_length; cbn [length]; lia).
+    change (mkM StSpecialAuthorityIgnoreSlashes (Z.of_nat (length (pre ++ [47; 47]))) [] false false false u0)
+      with (at_pos StSpecialAuthorityIgnoreSlashes (pre ++ [47; 47]) [] false false false u0).
+    apply (runs_ignore_slashes shp inp (Some sb) (take_sl T) (pre ++ [47; 47]) (drop_sl T) false false false u0 res).
+    + rewrite take_drop_sl. rewrite Hin, <- app_assoc. reflexivity.
+    + apply take_sl_all.
+    + apply drop_sl_head.
+    + exact HR.
+Qed.
+
+End SameSchemeSpec.
+
+(* ================= parse_relative on any remaining input (model side, special base) ================= *)
+Section ParseRelativeS.
+Variable dbg : bool.
+Variable hp hpo : list N -> result host.
+Variable hd : host -> list N.
+Variable shs : spec_host -> list N.
+
+Lemma parse_relative_abs_s b l c t : usv_list l -> ntnl l = c :: t -> is_sl c = true ->
+  match t with c2 :: _ => is_sl c2 = false | [] => True end ->
+  exists r1, ntnl r1 = t /\ usv_list r1
+    /\ parse_relative dbg hp hpo hd None CUrlParser STSpecialNotFile b l
+       = arm_expr_s dbg b (Bs (nfirstn (path_start b) (ser b)) []) r1.
+Proof.
+  intros Hul Ecl Hc1 Ht.
+  destruct (inp_next_some l c t Ecl) as (r1 & En & Er1 & _).
+  exists r1. split; [exact Er1|]. split; [exact (inp_next_usv l c r1 Hul En)|].
+  assert ((c =? 35) = false) as E35 by (unfold is_sl in Hc1; lia).
+  assert ((c =? 63) = false) as E63 by (unfold is_sl in Hc1; lia).
+  unfold parse_relative, inp_split_first. rewrite En. rewrite E63, E35.
+  cbn [st_is_special]. fold (sl_sp c). rewrite (sl_sp_is_sl c), Hc1.
+  change (fun d : N => (d =? 47) || (d =? 92) && true) with sl_sp.
+  destruct (inp_count_matching sl_sp l) as [sl rem'] eqn:Ecm.
+  assert (sl < 2) as Hsl.
+  { pose proof (inp_count_matching_fst sl_sp l) as Hf. rewrite Ecm in Hf. cbn [fst] in Hf. rewrite Hf, Ecl.
+    rewrite (count_leading_ext sl_sp is_sl _ sl_sp_is_sl). cbn [count_leading]. rewrite Hc1.
+    destruct t as [|d t']; [cbn [count_leading]; lia|]. cbn [count_leading]. rewrite Ht. lia. }
+  replace (2 <=? sl) with false by lia.
+  unfold arm_expr_s. assert (Bs (nfirstn (path_start b) (ser b)) [] = nfirstn (path_start b) (ser b) ++ [47]) as ->
+    by (unfold Bs; cbn [segs_text map concat]; apply app_nil_r).
+  reflexivity.
+Qed.
+
+Lemma parse_relative_path_s b sb l c t : related dbg shs b sb -> has_opaque_path sb = false ->
+  is_special_scheme (su_scheme sb) = true -> list_eqb (su_scheme sb) str_file = false ->
+  forallb no_slash (Whatwg.path_segments sb) = true ->
+  ntnl l = c :: t -> is_sl c = false -> (c =? 63) = false -> (c =? 35) = false ->
+  parse_relative dbg hp hpo hd None CUrlParser STSpecialNotFile b l
+  = arm_expr_s dbg b (Bs (nfirstn (path_start b) (ser b)) (removelast (Whatwg.path_segments sb))) l.
+Proof.
+  intros R Hop Hsp Hnf HnsP Ecl Esl E63 E35.
+  pose proof (rel_wf _ _ _ _ R) as W. pose proof (path_start_le_len b W) as Lps.
+  set (P := Whatwg.path_segments sb) in *.
+  set (pre := nfirstn (path_start b) (ser b)).
+  assert (nlen pre = path_start b) as Lpre by (apply nlen_nfirstn; exact Lps).
+  destruct (related_pre dbg shs b sb R) as [Ebq _]. fold pre in Ebq.
+  assert (serialize_path sb = flat_map (fun s => 47 :: s) P) as EPth.
+  { unfold serialize_path, P, Whatwg.path_segments. unfold has_opaque_path in Hop. destruct (su_path sb); [discriminate Hop | reflexivity]. }
+  rewrite EPth in Ebq.
+  destruct (inp_next_some l c t Ecl) as (r1 & En & Er1 & _).
+  pose proof (special_type_related dbg shs b sb R Hsp Hnf) as Hstb.
+  assert ((c =? 47) = false) as E47 by (unfold is_sl in Esl; lia).
+  unfold parse_relative, inp_split_first. rewrite En. rewrite E63, E35.
+  cbn [st_is_special]. fold (sl_sp c). rewrite (sl_sp_is_sl c), Esl.
+  rewrite Ebq, <- Lpre.
+  rewrite (pop_path_segments_s pre P HnsP). cbn [pbind].
+  rewrite Hstb. cbn [st_is_special orb]. rewrite andb_true_r.
+  rewrite match47, E47. unfold arm_expr_s. rewrite <- Lpre.
+  destruct P as [|p0 Pr] eqn:EP.
+  - rewrite N.eqb_refl. cbn [removelast].
+    assert (Bs pre [] = pre ++ [47]) as -> by (unfold Bs; cbn [segs_text map concat]; apply app_nil_r).
+    reflexivity.
+  - pose proof (Bs_len_ge pre (removelast (p0 :: Pr))) as Lb.
+    replace (nlen (Bs pre (removelast (p0 :: Pr))) =? nlen pre) with false by lia. reflexivity.
+Qed.
+
+End ParseRelativeS.
+
+(* the path of a related base has neither '?' nor '#' *)
+Lemma related_path_no_qh dbg shs b sb : related dbg shs b sb -> has_opaque_path sb = false ->
+  forallb C06_WFI.no_qh (flat_map (fun s => 47 :: s) (Whatwg.path_segments sb)) = true.
+Proof.
+  intros R Hop. pose proof (rel_wf _ _ _ _ R) as W. pose proof (path_start_le_len b W) as Lps.
+  set (P := Whatwg.path_segments sb) in *.
+  set (pre := nfirstn (path_start b) (ser b)).
+  destruct (related_pre dbg shs b sb R) as [Ebq _]. fold pre in Ebq.
+  assert (serialize_path sb = flat_map (fun s => 47 :: s) P) as EPth.
+  { unfold serialize_path, P, Whatwg.path_segments. unfold has_opaque_path in Hop. destruct (su_path sb); [discriminate Hop | reflexivity]. }
+  rewrite EPth in Ebq.
+  pose proof (qf_facts_of b W) as (_ & _ & _ & Q4 & _).
+  pose proof (before_query_path_end b W) as E. rewrite Ebq in E.
+  destruct (wf_ps_le_path_end b W) as [L1 L2].
+  assert (nfirstn (path_end b - path_start b) (nskipn (path_start b) (ser b)) = flat_map (fun s => 47 :: s) P) as EE.
+  { rewrite <- (nfirstn_nskipn (path_start b) (nfirstn (path_end b) (ser b))) in E.
+    rewrite nfirstn_nfirstn in E by lia. fold pre in E. apply app_inv_head in E. rewrite E.
+    unfold nskipn, nfirstn. rewrite N2Nat.inj_sub. rewrite firstn_skipn_comm.
+    replace (N.to_nat (path_start b) + (N.to_nat (path_end b) - N.to_nat (path_start b)))%nat with (N.to_nat (path_end b)) by lia.
+    reflexivity. }
+  rewrite EE in Q4. exact Q4.
+Qed.
+
+
+(* ================= classes "same scheme": "sch:/x" and "sch:x" against a base with the scheme sch ================= *)
+Lemma rel_path_result_s_scheme sb P t : su_scheme (rel_path_result_s sb P t) = su_scheme sb.
+Proof.
+  unfold rel_path_result_s.
+  destruct (tail_url_same (rel_keep sb (fst (spath_s t P []))) (snd (spath_s t P []))) as [E _]. rewrite E. reflexivity.
+Qed.
+
+Definition in_class_same_abs_s (sb : spec_url) (input : list N) : bool :=
+  sp_base_ok sb
+  && match spec_scheme (spec_clean input) with
+     | Some (sch, c :: t) => list_eqb sch (su_scheme sb) && is_sl c
+                             && negb (match t with c2 :: _ => is_sl c2 | [] => false end) && spath_ok_s t [] []
+     | _ => false
+     end.
+
+Definition in_class_same_path_s (sb : spec_url) (input : list N) : bool :=
+  sp_base_ok sb
+  && match spec_scheme (spec_clean input) with
+     | Some (sch, c :: t) => list_eqb sch (su_scheme sb) && negb (is_sl c) && negb (c =? 63) && negb (c =? 35)
+                             && spath_ok_s (c :: t) (removelast (Whatwg.path_segments sb)) []
+     | _ => false
+     end.
+
+Section SameSchemeClasses.
+Variable dbg : bool.
+Variable hp hpo : list N -> result host.
+Variable hd : host -> list N.
+Variable shp : bool -> list N -> option spec_host.
+Variable shs : spec_host -> list N.
+
+(* parser.rs: fewer than two slashes after "sch:" and the scheme of the base: parse_relative on the rest *)
+Lemma parse_url_same_scheme b sb input rem : related dbg shs b sb -> has_opaque_path sb = false ->
+  is_special_scheme (su_scheme sb) = true -> list_eqb (su_scheme sb) str_file = false ->
+  parse_scheme CUrlParser (input_new_trim_c0 input) = Some (su_scheme sb, rem) ->
+  count_leading is_sl (ntnl rem) < 2 ->
+  parse_url dbg hp hpo hd None (Some b) input
+  = (' _ <~ to_u32 (nlen (su_scheme sb)) ;; parse_relative dbg hp hpo hd None CUrlParser STSpecialNotFile b rem).
+Proof.
+  intros R Hop Hsp Hnf Hps Hcnt. unfold parse_url. rewrite Hps. unfold parse_with_scheme.
+  rewrite (special_type _ Hsp Hnf).
+  destruct (inp_count_matching is_slash_or_bslash rem) as [sl rm] eqn:Ecm.
+  pose proof (inp_count_matching_fst is_slash_or_bslash rem) as Hf. rewrite Ecm in Hf. cbn [fst] in Hf.
+  change is_slash_or_bslash with is_sl in Hf.
+  replace (sl <? 2) with true by (symmetry; apply N.ltb_lt; rewrite Hf; exact Hcnt).
+  rewrite (rel_sch _ _ _ _ R), list_eqb_refl. cbn [andb].
+  rewrite (related_not_cbb dbg shs b sb R Hop). cbn [negb passert].
+  destruct (to_u32 (nlen (su_scheme sb))); cbn [pbind]; [|reflexivity | reflexivity].
+  destruct dbg; reflexivity.
+Qed.
+
+Lemma same_scheme_finish (m : pres url) (sb : spec_url) u su : related dbg shs u su -> su_scheme su = su_scheme sb ->
+  oob (U32_MAX_P < nlen (ser u)) m u ->
+  agree_rel_strict dbg shs (' _ <~ to_u32 (nlen (su_scheme sb)) ;; m) (BDone su).
+Proof.
+  intros Ru Esch HO.
+  apply (oob_agree dbg shs _ u su); [|exact Ru].
+  eapply oob_bind; [|exact HO]. apply oob_u32. intros Hlt.
+  destruct (related_scheme_colon dbg shs u su Ru) as (_ & Ese & _).
+  destruct (wf_scheme_facts u (rel_wf _ _ _ _ Ru)) as (_ & _ & Hl). rewrite Ese, Esch in Hl. lia.
+Qed.
+
+Theorem class_same_abs_s input b sb : usv_list input -> related dbg shs b sb ->
+  scheme_canon (su_scheme sb) = true -> in_class_same_abs_s sb input = true ->
+  exists su, spec_basic_url_parse shp input (Some sb) = BDone su /\ spec_base_ok su = true
+    /\ agree_rel_strict dbg shs (parse_url dbg hp hpo hd None (Some b) input) (BDone su).
+Proof.
+  intros Hu R Hcan Hc. unfold in_class_same_abs_s in Hc.
+  apply andb_true_iff in Hc. destruct Hc as [Hb Hok].
+  destruct (sp_base_ok_facts sb Hb) as (Hop & Hsp & Hnf & h & Eh).
+  destruct (spec_scheme (spec_clean input)) as [[sch R0]|] eqn:Es; [|discriminate Hok].
+  destruct R0 as [|c t]; [discriminate Hok|].
+  apply andb_true_iff in Hok. destruct Hok as [Hok Hspok]. apply andb_true_iff in Hok. destruct Hok as [Hok Ht].
+  apply andb_true_iff in Hok. destruct Hok as [Esch Hc1]. apply list_eqb_spec in Esch. subst sch.
+  apply negb_true_iff in Ht.
+  assert (match t with c2 :: _ => is_sl c2 = false | [] => True end) as Ht' by (destruct t; [exact I | exact Ht]).
+  exists (rel_path_result_s sb [] t).
+  assert (spec_basic_url_parse shp input (Some sb) = BDone (rel_path_result_s sb [] t)) as HS.
+  { apply spec_parse_of_runs.
+    destruct (runs_scheme shp (spec_clean input) (Some sb) (su_scheme sb) (c :: t) (BDone (rel_path_result_s sb [] t)) Es)
+      as (pre & Hin & K). apply K.
+    apply (runs_scheme_colon_same shp _ sb Hsp Hnf pre (c :: t) _ Hin).
+    assert (spec_clean input = (pre ++ [58]) ++ c :: t) as Hin2 by (rewrite Hin, <- app_assoc; reflexivity).
+    apply (runs_sroa_relative shp _ sb (pre ++ [58]) (c :: t) _ Hin2).
+    { cbn [hd_error tl cis]. destruct t as [|c2 t2]; [apply andb_false_r|]. cbn [starts_with_cp].
+      unfold is_sl in Ht. apply orb_false_iff in Ht. destruct Ht as [-> _]. apply andb_false_r. }
+    exact (runs_rel_abs_g shp _ sb Hsp Hnf (pre ++ [58]) (set_scheme empty_url (su_scheme sb)) eq_refl c t Hin2 Hc1 Ht'). }
+  split; [exact HS|].
+  rewrite spec_clean_is_ntnl_trim in Es. destruct (spec_scheme_model _ _ _ Es) as (rem & Hps & Hrem).
+  destruct (parse_scheme_suffix _ _ _ _ Hps) as [pre0 Hpre].
+  assert (usv_list rem) as Hur.
+  { pose proof (usv_trim input Hu) as Htr. rewrite Hpre in Htr. apply usv_app in Htr. tauto. }
+  rewrite (parse_url_same_scheme b sb input rem R Hop Hsp Hnf Hps).
+  2:{ rewrite Hrem. cbn [count_leading]. rewrite Hc1. destruct t as [|c2 t2]; [cbn [count_leading]; lia|].
+      cbn [count_leading]. rewrite Ht. lia. }
+  destruct (parse_relative_abs_s dbg hp hpo hd b rem c t Hur Hrem Hc1 Ht') as (r1 & Er1 & Hur1 & ->).
+  rewrite <- Er1 in Hspok.
+  destruct (path_arm_related_s dbg shs b sb h [] r1 R Hop Hsp Hnf Eh Hcan Hur1 eq_refl eq_refl Hspok) as (u & HO & Ru & Hbo).
+  rewrite Er1 in Ru, Hbo. split; [exact Hbo|].
+  exact (same_scheme_finish _ sb u _ Ru (rel_path_result_s_scheme sb [] t) HO).
+Qed.
+
+Theorem class_same_path_s input b sb : usv_list input -> related dbg shs b sb ->
+  spec_base_ok sb = true -> in_class_same_path_s sb input = true ->
+  exists su, spec_basic_url_parse shp input (Some sb) = BDone su /\ spec_base_ok su = true
+    /\ agree_rel_strict dbg shs (parse_url dbg hp hpo hd None (Some b) input) (BDone su).
+Proof.
+  intros Hu R Hbok Hc. unfold in_class_same_path_s in Hc.
+  apply andb_true_iff in Hbok. destruct Hbok as [Hcan HnsP].
+  apply andb_true_iff in Hc. destruct Hc as [Hb Hok].
+  destruct (sp_base_ok_facts sb Hb) as (Hop & Hsp & Hnf & h & Eh).
+  destruct (spec_scheme (spec_clean input)) as [[sch R0]|] eqn:Es; [|discriminate Hok].
+  destruct R0 as [|c t]; [discriminate Hok|].
+  apply andb_true_iff in Hok. destruct Hok as [Hok Hspok]. apply andb_true_iff in Hok. destruct Hok as [Hok E35].
+  apply andb_true_iff in Hok. destruct Hok as [Hok E63]. apply andb_true_iff in Hok. destruct Hok as [Esch Esl].
+  apply list_eqb_spec in Esch. subst sch. apply negb_true_iff in Esl, E63, E35.
+  set (P := Whatwg.path_segments sb) in *.
+  exists (rel_path_result_s sb (removelast P) (c :: t)).
+  assert (spec_basic_url_parse shp input (Some sb) = BDone (rel_path_result_s sb (removelast P) (c :: t))) as HS.
+  { apply spec_parse_of_runs.
+    destruct (runs_scheme shp (spec_clean input) (Some sb) (su_scheme sb) (c :: t)
+                (BDone (rel_path_result_s sb (removelast P) (c :: t))) Es) as (pre & Hin & K). apply K.
+    apply (runs_scheme_colon_same shp _ sb Hsp Hnf pre (c :: t) _ Hin).
+    assert (spec_clean input = (pre ++ [58]) ++ c :: t) as Hin2 by (rewrite Hin, <- app_assoc; reflexivity).
+    apply (runs_sroa_relative shp _ sb (pre ++ [58]) (c :: t) _ Hin2).
+    { cbn [hd_error tl cis]. unfold is_sl in Esl. apply orb_false_iff in Esl. destruct Esl as [-> _]. reflexivity. }
+    exact (runs_rel_path_g shp _ sb Hop Hsp Hnf (pre ++ [58]) (set_scheme empty_url (su_scheme sb)) eq_refl c t Hin2 Esl E63 E35). }
+  split; [exact HS|].
+  rewrite spec_clean_is_ntnl_trim in Es. destruct (spec_scheme_model _ _ _ Es) as (rem & Hps & Hrem).
+  destruct (parse_scheme_suffix _ _ _ _ Hps) as [pre0 Hpre].
+  assert (usv_list rem) as Hur.
+  { pose proof (usv_trim input Hu) as Htr. rewrite Hpre in Htr. apply usv_app in Htr. tauto. }
+  rewrite (parse_url_same_scheme b sb input rem R Hop Hsp Hnf Hps).
+  2:{ rewrite Hrem. cbn [count_leading]. rewrite Esl. lia. }
+  rewrite (parse_relative_path_s dbg hp hpo hd shs b sb rem c t R Hop Hsp Hnf HnsP Hrem Esl E63 E35). fold P.
+  rewrite <- Hrem in Hspok.
+  destruct (path_arm_related_s dbg shs b sb h (removelast P) rem R Hop Hsp Hnf Eh Hcan Hur
+              (no_slash_removelast P HnsP) (removelast_prefix_no_qh_s P (related_path_no_qh dbg shs b sb R Hop)) Hspok)
+    as (u & HO & Ru & Hbo).
+  rewrite Hrem in Ru, Hbo. split; [exact Hbo|].
+  exact (same_scheme_finish _ sb u _ Ru (rel_path_result_s_scheme sb _ _) HO).
+Qed.
+
+End SameSchemeClasses.
